@@ -139,6 +139,24 @@ func c02StoreSnippets() []string {
 	return out
 }
 
+// c02LiteralSnippets: concatenations of string literals next to literals whose spelling is the concatenation's
+// value between quotes (which, read as a literal, is another string): constants are told apart by value and kind,
+// never by how some rendering of them looks.
+func c02LiteralSnippets() []string {
+	var out []string
+	for _, p := range [][3]string{
+		{`"C:\\"`, `"temp"`, `"C:\temp"`}, {`"a\\"`, `"n"`, `"a\n"`}, {`"\\"`, `"x41"`, `"\x41"`}, {`"\\u00"`, `"e9"`, `"\u00e9"`},
+		{`"1"`, `"2"`, `"12"`}, {`"tab\\"`, `"t"`, `"tab\t"`}, {`"\\"`, `"\\"`, `"\\"`},
+	} {
+		out = append(out,
+			fmt.Sprintf("func f() []string { a := %s + %s; b := %s; return []string{a, b} }\nfunc g() bool { return %s + %s == %s }\nr := f()\nq := g()\nn := len(r[0])*100 + len(r[1])\nr\nq\nn\n", p[0], p[1], p[2], p[0], p[1], p[2]),
+			fmt.Sprintf("b := %s\nfunc f() string { return %s + %s }\na := f()\nc := %s\nr := []string{a, b, c}\nn := len(a)*100 + len(b)\nr\nn\n", p[2], p[0], p[1], p[2]))
+	}
+	// numbers and strings that print alike, constants in several bases
+	out = append(out, "a := \"12\"\nb := 12\nc := \"1\" + \"2\"\nd := 1 + 2\ne := 0x0c\nf := 014\nr := []any{a, b, c, d, e, f}\nt := __type(r[3])\nr\nt\n")
+	return out
+}
+
 // c02Histories: one VM compiles more than once. What the optimizer knows when it compiles the
 // second text (values already in the global table, functions and types already defined) must not
 // show in what the second text does.
